@@ -23,6 +23,9 @@ def main(tier, rep):
     common.import_repo()
     progs = L.gen_fault_programs(L.KINDS, L.ALL_OPS, tier, seed=common.seed(),
                                  quick_stride=3)
+    # with ignore_exc a failed read is reported as a miss: the connection it failed on must not stay in use either
+    reads = [(op, nrs) for op, nrs in L.ALL_OPS if op in L.READ_OPS or op == "stats"]
+    progs += L.gen_fault_programs(L.KINDS, reads, tier, ignore_exc=True, seed=common.seed() + 5, quick_stride=2)
     traces = [L.run_program(cfg, steps) for cfg, steps in progs]
     L.validate(rep, traces, relevant, PROP)
     # code -> spec on executions the harness did not design: the repository's own integration tests
